@@ -79,7 +79,7 @@ NameHash(n) == NameHashFrom(n, 1)
 ElabMethod(m, code) ==
     [name |-> Str(m.name), name_c |-> m.name, kind |-> m.kind, args |-> m.args, outcome |-> m.outcome,
      code |-> code, h |-> NameHash(m.name), variant |-> Str(Variant(m.name)), wire |-> Str(Wire(m.name)),
-     near |-> Str(Near(m.name)), shape_name |-> IsShapeName(m.name), resp |-> m.resp, explicit |-> m.explicit, sig |-> m.sig, ret |-> m.ret]
+     near |-> Str(Near(m.name)), shape_name |-> IsShapeName(m.name), ctxkind |-> m.ctxkind, resp |-> m.resp, explicit |-> m.explicit, sig |-> m.sig, ret |-> m.ret]
 ElabPart(part, base) ==
     [id |-> part.id,
      methods |-> [j \in 1..Len(part.methods) |-> ElabMethod(part.methods[j], base + j)],
